@@ -877,3 +877,5 @@ if __name__ == '__main__':  # pragma: no cover
     res = run(rec.get('plan', rec))
     print(json.dumps(res['violations'], indent=1))
     print(res['probes'])
+
+INFO['rule'] += ' Round-6 additions (live shape): the cache of the shares cannot be written during the graceful stop (shares_store_fails).'
